@@ -4,18 +4,19 @@ import base64, json, pickle, plistlib
 
 NAME = "matrix"
 
-D1 = {"name": "alpha", "items": [1, 2, {"k": "v"}], "flag": True, "n": 3}
-D2 = {"name": "alphA", "items": [1, 3, {"k": "w", "z": None}], "flag": False, "extra": "x"}
-X1 = '<?xml version="1.0"?>\n<root a="1"><item>one</item><item n="2">two</item></root>'
-X2 = '<?xml version="1.0"?>\n<root a="2"><item>one</item><extra>new</extra></root>'
+D1 = {"name": "alpha", "items": [1, 2, {"k": "v"}], "flag": True, "n": 3, "q": 'say "hi" \\ <b>&amp;</b>\n\u00e9', "e": [], "o": {}}
+D2 = {"name": "alphA", "items": [1, 3, {"k": "w", "z": None}], "flag": False, "extra": "x", "q": 'say "ho" \\ <i>&lt;</i>\t\u00e8', "e": [1], "o": {"n": {}}}
+X1 = '<?xml version="1.0"?>\n<root a="1" q="&quot;x&quot; &amp; &lt;y&gt;"><item>one</item><item n="2">two &amp; "2"</item><empty/><gone>bye</gone></root>'
+X2 = '<?xml version="1.0"?>\n<root a="2" q="&quot;x&quot; &amp; &lt;z&gt;"><item>one</item><extra>new</extra><empty>now</empty><gone/></root>'
 C1 = "id,name,val\n1,foo,3\n2,bar,4\n"
 C2 = "id,name,val\n1,foo,5\n3,baz,4\n9,q,q\n"
 
 INPUTS = ["json", "json5", "yaml", "csv", "xml", "html", "plist", "pickle"]
 FORMATS = [None] + INPUTS
 MODES = [[], ["-e"], ["-d"]]
-COLORS = [["--no-color"], ["--color"], ["--html"]]
+COLORS = [["--no-color"], ["--color"], ["--html"], ["--html", "--color"]]
 COND = [[], ["-j"]]
+OPTS = [[], ["-k"], ["--dict-strategy", "match"], ["-l"], ["-ll"]]
 
 
 def _plistable(d):
@@ -52,8 +53,9 @@ def all_configs():
             for m in MODES:
                 for c in COLORS:
                     for j in COND:
-                        for same in (False, True):
-                            yield {"input": i, "format": f, "mode": m, "color": c, "cond": j, "same": same}
+                        for o in OPTS:
+                            for same in (False, True):
+                                yield {"input": i, "format": f, "mode": m, "color": c, "cond": j, "opts": o, "same": same}
 
 
 def gen(rng, tier):
@@ -64,7 +66,8 @@ def gen(rng, tier):
         for i in INPUTS:
             for f in FORMATS:
                 for m in MODES:
-                    chosen.append({"input": i, "format": f, "mode": m, "color": rng.choice(COLORS), "cond": rng.choice(COND), "same": rng.random() < 0.25})
+                    chosen.append({"input": i, "format": f, "mode": m, "color": rng.choice(COLORS), "cond": rng.choice(COND), "opts": [], "same": rng.random() < 0.25})
+                    chosen.append({"input": i, "format": f, "mode": m, "color": rng.choice(COLORS), "cond": rng.choice(COND), "opts": rng.choice(OPTS[1:]), "same": rng.random() < 0.25})
         cfgs = chosen
     return cfgs
 
@@ -75,7 +78,7 @@ def impl(case):
     a = content(case["input"], 1)
     b = a if case["same"] else content(case["input"], 2)
     files = {"a." + ext: {"b64": base64.b64encode(a).decode()}, "b." + ext: {"b64": base64.b64encode(b).decode()}}
-    argv = ["--from-" + case["input"], "--to-" + case["input"], "--no-status"] + case["mode"] + case["color"] + case["cond"]
+    argv = ["--from-" + case["input"], "--to-" + case["input"], "--no-status"] + case["mode"] + case["color"] + case["cond"] + case.get("opts", [])
     if case["format"]:
         argv += ["-f", case["format"]]
     argv += ["a." + ext, "b." + ext]
@@ -121,7 +124,7 @@ def monitor(case, obs):
 
 def classify(case, obs):
     mode = {"": "full", "-e": "edits", "-d": "digest"}["".join(case["mode"])]
-    return f"{case['input']}->{_fmt(case)}:{mode}:{case['color'][0]}"
+    return f"{case['input']}->{_fmt(case)}:{mode}:{'+'.join(case['color'])}:{''.join(case.get('opts', [])) or 'defaults'}"
 
 
 def nontrivial(case, obs):
